@@ -25,8 +25,9 @@ import time
 import traceback
 
 VERIF = os.path.dirname(os.path.dirname(os.path.abspath(__file__)))
-EVIDENCE_DIR = os.path.join(VERIF, "evidence")
-REPLAY_DIR = os.path.join(VERIF, "replays")
+_SCRATCH = os.environ.get("VERIF_REPO", "/repo") != "/repo"  # mutant runs never touch committed evidence
+EVIDENCE_DIR = os.path.join(VERIF, "scratch", "evidence") if _SCRATCH else os.path.join(VERIF, "evidence")
+REPLAY_DIR = os.path.join(VERIF, "scratch", "replays") if _SCRATCH else os.path.join(VERIF, "replays")
 KNOWN = os.path.join(VERIF, "known_findings.json")
 MAX_SAMPLES = 6
 MAX_VIOL_PER_SIG = 3
